@@ -6,6 +6,6 @@ CONSTANTS
   MaxOps = 100
   KeepHist = FALSE
 VIEW view
-CONSTRAINT SmallWc
+CONSTRAINT Thorough
 INVARIANTS TypeOK KnobsNeverChangeData PlainUntouched ResolveExists
 CHECK_DEADLOCK FALSE
